@@ -204,6 +204,11 @@ func (w *world) request(policy int) result {
 	target := "/api/v1/namespaces/default/pods"
 	if policy == 1 {
 		target = "/healthz/ping"
+		if n := atomic.LoadInt64(&seq); n%3 == 0 {
+			// a legal request target whose PATH begins with two slashes and names the address of some upstream of the
+			// pool (listed or not, enabled or not): it is a path, the endpoint contacted is still the picked one
+			target = "//" + strings.TrimPrefix(pool.Upstreams[int(n/3)%len(pool.Upstreams)].URL, "http://") + "/healthz/ping"
+		}
 	}
 	ctx, cancel := context.WithTimeout(context.Background(), 20*time.Second)
 	defer cancel()
@@ -277,7 +282,7 @@ func (w *world) judge(t *rapid.T, r result, policy int, allowed []map[int]bool, 
 }
 
 func TestPropEndpointSelection(t *testing.T) {
-	sub := stats.NewSub("spec-and-health-histories", "rapid state machine: ops spec update (servers subset of the pool in any order, disabled flags, one time in five with endpoints listed twice with equal or conflicting flags - disabled if any entry says so, two policies with / without upstream subset), health flip of an upstream (/healthz answers 200 or one of 23 other status codes with a text or API Status body; then trigger + wait), n sequential requests for a policy, a burst of requests racing with a spec update, health-check trigger on a disabled endpoint; oracle: a forwarded request reached an endpoint that is in the server list, in the matched policy's subset, enabled and healthy (before or after the update for racing requests), and the answer came from that endpoint; no eligible endpoint => 503 and nothing forwarded; a disabled endpoint gets no proxied request and no probe later than 300 ms after the disabling sync; probes resume on re-enable; non-trivial = >= 1 health flip / disable / enable / subset change followed by >= 1 request; distinct by FNV-64 of the op trace")
+	sub := stats.NewSub("spec-and-health-histories", "rapid state machine: ops spec update (servers subset of the pool in any order, disabled flags, one time in five with endpoints listed twice with equal or conflicting flags - disabled if any entry says so, two policies with / without upstream subset), health flip of an upstream (/healthz answers 200 or one of 23 other status codes with a text or API Status body; then trigger + wait), n sequential requests for a policy (one request in three for the catch-all policy has a path that begins with two slashes followed by the address of some upstream of the pool), a burst of requests racing with a spec update, health-check trigger on a disabled endpoint; oracle: a forwarded request reached an endpoint that is in the server list, in the matched policy's subset, enabled and healthy (before or after the update for racing requests), and the answer came from that endpoint; no eligible endpoint => 503 and nothing forwarded; a disabled endpoint gets no proxied request and no probe later than 300 ms after the disabling sync; probes resume on re-enable; non-trivial = >= 1 health flip / disable / enable / subset change followed by >= 1 request; distinct by FNV-64 of the op trace")
 	stats.Check(t, stats.N(40, 300), func(t *rapid.T) {
 		g := gwbox.NewGateway()
 		defer g.Close()
